@@ -241,7 +241,8 @@ Definition parse_normal_range (h : hunk) (line : list N) : bool * hunk :=
                         | inr (nend, s9) =>
                             let nc0 := sadd (nend - nstart) 1 in
                             let nc := if N.eqb cmd 100 then (nc0 - 1)%Z else nc0 in
-                            (is_nil s9, mkHunk (mkRange ostart oc) (mkRange nstart nc) (body h))
+                            (* a range which ends before it starts holds no lines *)
+                            (is_nil s9, mkHunk (mkRange ostart (Z.max oc 0)) (mkRange nstart (Z.max nc 0)) (body h))
                         end
                   end
             end
